@@ -198,4 +198,266 @@ theorem encodeData_lp {o : Oracle} {s s' : St} {site : Nat} {il ff : Bool} {req 
       (by rw [hip, m3, e3, ← hu]; exact Nat.mod_le _ _)
     rw [this, hip]
 
+/-! ### the carry after an encode -/
+
+theorem encPayload_lbb {s s' : St} {ans : Ans} {w0 w : Writer} {hdr : Nat} {il ff res : Bool}
+    (h : encPayload s ans w0 w hdr il ff = .ok (s', res)) :
+    s'.lastBytesBits < 8 ∨ s'.lastBytesBits = s.lastBytesBits := by
+  unfold encPayload at h
+  simp only at h
+  split_all h
+  all_goals first
+    | (simp at h; done)
+    | (simp only [Out.ok.injEq, Prod.mk.injEq] at h; obtain ⟨rfl, rfl⟩ := h; right; rfl)
+    | (simp only [Out.ok.injEq, Prod.mk.injEq] at h; obtain ⟨rfl, rfl⟩ := h; left; exact (carryOf_lt _).2)
+
+theorem encPrelude_lbb {s s' : St} {w w' : Writer} {hdr hdr' bytes : Nat}
+    (h : encPrelude s w hdr bytes = .ok (s', w', hdr')) :
+    s'.lastBytesBits < 8 ∨ s'.lastBytesBits = s.lastBytesBits := by
+  unfold encPrelude at h
+  simp only at h
+  split_all h
+  all_goals first
+    | (simp at h; done)
+    | (simp only [Out.ok.injEq, Prod.mk.injEq] at h; obtain ⟨rfl, rfl, rfl⟩ := h; right; rfl)
+    | (simp only [Out.ok.injEq, Prod.mk.injEq] at h; obtain ⟨rfl, rfl, rfl⟩ := h; left; exact (carryOf_lt _).2)
+
+theorem encMagic_lbb (s : St) (w0 : Writer) :
+    (encMagic s w0).1.lastBytesBits < 8 ∨ (encMagic s w0).1.lastBytesBits = s.lastBytesBits := by
+  unfold encMagic
+  split
+  · left; exact (carryOf_lt _).2
+  · right; rfl
+
+theorem encRest_lbb {m : St × Writer × Nat} {ans : Ans} {w0 : Writer} {bytes : Nat} {il ff res : Bool} {s' : St}
+    (h : encRest m ans w0 bytes il ff = .ok (s', res)) :
+    s'.lastBytesBits < 8 ∨ s'.lastBytesBits = m.1.lastBytesBits := by
+  unfold encRest at h
+  split at h
+  · simp at h
+  · simp at h
+  · rename_i s2 w hdr hpre
+    rcases encPayload_lbb h with h1 | h1
+    · exact Or.inl h1
+    · rcases encPrelude_lbb hpre with h2 | h2
+      · left; omega
+      · right; omega
+
+/-- the carry after `encode_data` has fewer than 8 bits, or is the carry it started with -/
+theorem encodeData_lbb {o : Oracle} {s s' : St} {site : Nat} {il ff res : Bool} {req : Req}
+    (h : encodeData o s site il ff = .ok (s', res, req)) :
+    s'.lastBytesBits < 8 ∨ s'.lastBytesBits = s.lastBytesBits := by
+  obtain ⟨_, hc⟩ := encodeData_ok_cases h
+  rcases hc with ⟨_, _, rfl⟩ | ⟨_, _, _, rfl⟩ | ⟨_, _, hrest⟩
+  · right; exact (encFail_fields _ _ _).2.2.2.2.2.2.1
+  · right; exact (encFail_fields _ _ _).2.2.2.2.2.2.1
+  · have e9 := (encEntry_fields s il).2.2.2.2.2.2.2.2.1
+    rcases encRest_lbb hrest with h1 | h1
+    · exact Or.inl h1
+    · rcases encMagic_lbb (encEntry s il) s.carry with h2 | h2
+      · left; omega
+      · right; omega
+
+theorem rbs_full {s : St} (h : s.lastProcessedPos = s.inputPos) (h3 : s.inputPos < two64) :
+    remainingInputBlockSize s = s.blockSize := by
+  unfold remainingInputBlockSize St.unprocessed
+  rw [h, wsub64_eq (Nat.le_refl _) h3]
+  have := Nat.pow_pos (n := s.params.lgblock.toNat) (by omega : 0 < 2)
+  simp only [Nat.sub_self]
+  unfold St.blockSize
+  split <;> omega
+
+/-! ### the potential of the main loop -/
+
+/-- an encode can happen before any further input is consumed -/
+def canEnc (op : Nat) (s : St) (io : Io) : Prop :=
+  s.streamState = .processing ∧ (remainingInputBlockSize s = 0 ∨ (op ≠ 0 ∧ io.availIn = 0))
+
+instance (op : Nat) (s : St) (io : Io) : Decidable (canEnc op s io) := by unfold canEnc; exact inferInstance
+
+/-- bytes a pending padding block may still add (+1) -/
+def padB (s : St) : Nat := if s.lastBytesBits ≠ 0 then 4 else 0
+
+/-- potential of the main loop: lexicographic in (input left, an encode is due, bytes to hand out) -/
+def slowPot (op M : Nat) (s : St) (io : Io) : Nat :=
+  (2 * io.availIn + (if canEnc op s io then 1 else 0)) * (M + 8) + padB s + s.pending.length
+
+/-- output side: a step that did something strictly lowers `padB + pending`, keeps everything the
+potential reads otherwise, and leaves at most the old carry -/
+theorem push_lowers {s s' : St} {io io' : Io} (hl : s.lastBytesBits ≤ 14)
+    (h : injectFlushOrPushOutput s io = .ok (s', io', true)) :
+    padB s' + s'.pending.length < padB s + s.pending.length ∧ s'.lastBytesBits ≤ s.lastBytesBits := by
+  unfold injectFlushOrPushOutput at h
+  split at h
+  · rename_i hc
+    split at h
+    · rename_i s1 hp
+      simp only [Out.ok.injEq, Prod.mk.injEq] at h
+      obtain ⟨rfl, rfl, _⟩ := h
+      have hpp := pad_pending hp
+      have hz := (pad_frame hp).2.2.2.2.1
+      have hn : (s.lastBytesBits + 6 + 7) / 8 ≤ 3 := by omega
+      unfold padB
+      rw [hz, hpp]
+      simp only [ne_eq, not_true_eq_false, ↓reduceIte, List.length_append, sealBytes, List.length_map, List.length_range]
+      rw [if_pos hc.2]
+      omega
+    · simp at h
+    · simp at h
+  · simp only at h
+    split_all h
+    all_goals first
+      | (simp at h; done)
+      | (rename_i hpush _ _ _ _
+         simp only [Out.ok.injEq, Prod.mk.injEq] at h; obtain ⟨rfl, rfl, _⟩ := h
+         unfold padB
+         simp only [List.length_drop]
+         have := hpush.1; have := hpush.2
+         omega)
+      | (rename_i hpush _ _ _
+         simp only [Out.ok.injEq, Prod.mk.injEq] at h; obtain ⟨rfl, rfl, _⟩ := h
+         unfold padB
+         simp only [List.length_drop]
+         have := hpush.1; have := hpush.2
+         omega)
+
+theorem blockSize_pos (s : St) : 0 < s.blockSize := by
+  unfold St.blockSize; exact Nat.pow_pos (by omega)
+
+theorem canEnc_congr {op : Nat} {s s' : St} {io io' : Io} (h1 : s'.streamState = s.streamState)
+    (h2 : s'.params.lgblock = s.params.lgblock) (h3 : s'.inputPos = s.inputPos)
+    (h4 : s'.lastProcessedPos = s.lastProcessedPos) (h5 : io'.availIn = io.availIn) :
+    canEnc op s' io' ↔ canEnc op s io := by
+  unfold canEnc remainingInputBlockSize St.unprocessed
+  rw [h1, blockSize_congr h2, h3, h4, h5]
+
+theorem slowStep_decreases {o : Oracle} {op B M : Nat} {s s' : St} {io io' : Io} (hI : Inv s)
+    (hw : s.inputPos + io.availIn < two64) (hnp : s.streamState ≠ .processing → io.availIn = 0)
+    (hB : OracleBounded o B) (hM : (14 + 176 + B) / 8 ≤ M) (hl : s.lastBytesBits ≤ 14) (hop : op ≤ 2)
+    (h : slowStep o op s io = .ok (s', io', .cont)) :
+    slowPot op M s' io' < slowPot op M s io ∧ s'.lastBytesBits ≤ 14 := by
+  unfold slowStep at h
+  simp only at h
+  split at h
+  · -- copy input
+    rename_i hc
+    split at h
+    · simp at h
+    · split at h
+      · rename_i s1 hcp
+        simp only [Out.ok.injEq, Prod.mk.injEq] at h
+        obtain ⟨rfl, rfl, _⟩ := h
+        obtain ⟨c1, c2, c3, c4, c5, c6, c7, c8, c9, c10, c11, _⟩ := copy_fields hI.init hcp
+        have hn : 1 ≤ min (remainingInputBlockSize s) io.availIn := by
+          have := hc.1; have := hc.2; omega
+        have hle : min (remainingInputBlockSize s) io.availIn ≤ io.availIn := Nat.min_le_right _ _
+        refine ⟨?_, by rw [c11]; exact hl⟩
+        unfold slowPot padB
+        rw [c9, c11]
+        simp only
+        have hA : 2 * (io.availIn - min (remainingInputBlockSize s) io.availIn) + 1 ≤ 2 * io.availIn - 1 := by omega
+        have h1 : (2 * (io.availIn - min (remainingInputBlockSize s) io.availIn) + (if canEnc op s1 { input := io.input.drop (min (remainingInputBlockSize s) io.availIn), availIn := io.availIn - min (remainingInputBlockSize s) io.availIn, availOut := io.availOut, out := io.out, reqs := io.reqs } then 1 else 0)) ≤ 2 * io.availIn - 1 := by
+          split <;> omega
+        have h2 : (2 * io.availIn - 1) * (M + 8) + (M + 8) ≤ (2 * io.availIn + (if canEnc op s io then 1 else 0)) * (M + 8) := by
+          have : 2 * io.availIn - 1 + 1 ≤ 2 * io.availIn + (if canEnc op s io then 1 else 0) := by split <;> omega
+          calc (2 * io.availIn - 1) * (M + 8) + (M + 8) = (2 * io.availIn - 1 + 1) * (M + 8) := by rw [Nat.add_mul, Nat.one_mul]
+            _ ≤ _ := Nat.mul_le_mul_right _ this
+        have h3 := Nat.mul_le_mul_right (M + 8) h1
+        omega
+      · simp at h
+      · simp at h
+  · rename_i hnc
+    split at h
+    · simp at h
+    · simp at h
+    · -- output pushed / padding injected
+      rename_i s1 io1 hp
+      simp only [Out.ok.injEq, Prod.mk.injEq] at h
+      obtain ⟨rfl, rfl, _⟩ := h
+      obtain ⟨f, a1, a2, _, _, _, _, _, fa, _⟩ := push_frame hp
+      rw [St.frame_eq_iff] at f
+      obtain ⟨l1, l2⟩ := push_lowers hl hp
+      refine ⟨?_, Nat.le_trans l2 hl⟩
+      unfold slowPot
+      have hce : canEnc op s1 io1 ↔ canEnc op s io := canEnc_congr f.2.2.2.1 (by rw [f.1]) f.2.1 a2 fa
+      rw [fa]
+      simp only [hce]
+      omega
+    · rename_i s1 io1 hp
+      obtain ⟨e1, e2, _, _⟩ := push_false hp
+      have e1' := e1.symm; have e2' := e2.symm
+      subst e1' e2'
+      split at h
+      · rename_i hcond
+        split at h
+        · simp at h
+        · simp at h
+        · rename_i s2 res req henc
+          have hI2 := inv_updateSizeHint hI io.availIn
+          obtain ⟨u1, _, _, _, _, u6, u7, u8, u9, u10, u11, _, u13, u14, _⟩ := updateSizeHint_fields s io.availIn
+          have hst : (updateSizeHint s io.availIn).streamState = .processing := by rw [u9]; exact hcond.2.1
+          have hres : res = true := encodeData_succeeds hI2 (by rw [hst]; simp) henc
+          subst hres
+          simp only [Bool.not_true, Bool.false_eq_true, ↓reduceIte, Out.ok.injEq, Prod.mk.injEq] at h
+          obtain ⟨rfl, rfl, _⟩ := h
+          obtain ⟨f, _, _, _, _⟩ := encodeData_frame henc
+          rw [St.frame_eq_iff] at f
+          obtain ⟨k1, k2, k3, _, _, k6, _, k8, k9, k10⟩ := markAfterEncode_fields s2 (decide (io.availIn = 0 ∧ op = 2)) (decide (io.availIn = 0 ∧ op = 1))
+          have hpl := encodeData_pending_le hB henc
+          rw [u14] at hpl
+          have hlp := encodeData_lp henc hI2.fl_le hI2.lp_le hI2.ip_lt
+          have hlbb : s2.lastBytesBits ≤ 14 := by
+            rcases encodeData_lbb henc with h8 | h8
+            · omega
+            · rw [h8, u14]; exact hl
+          refine ⟨?_, by rw [k9]; exact hlbb⟩
+          -- before: an encode was due; after: not any more
+          have hbefore : canEnc op s io := by
+            refine ⟨hcond.2.1, ?_⟩
+            rcases hcond.2.2 with h0 | h0
+            · exact Or.inl h0
+            · by_cases hr : remainingInputBlockSize s = 0
+              · exact Or.inl hr
+              · right
+                refine ⟨h0, ?_⟩
+                by_cases hz : io.availIn = 0
+                · exact hz
+                · exact absurd ⟨hr, hz⟩ hnc
+          have hafter : ¬ canEnc op (markAfterEncode s2 (decide (io.availIn = 0 ∧ op = 2)) (decide (io.availIn = 0 ∧ op = 1))) { io with reqs := io.reqs ++ [req] } := by
+            intro ⟨hs, hr⟩
+            rw [k10] at hs
+            by_cases h2 : io.availIn = 0 ∧ op = 2
+            · rw [decide_eq_true h2] at hs; cases hs
+            · rw [decide_eq_false h2] at hs
+              by_cases h1 : io.availIn = 0 ∧ op = 1
+              · rw [decide_eq_true h1] at hs; cases hs
+              · rcases hr with hr | ⟨hr1, hr2⟩
+                · -- remaining block size is the whole block again
+                  have hfull : remainingInputBlockSize (markAfterEncode s2 (decide (io.availIn = 0 ∧ op = 2)) (decide (io.availIn = 0 ∧ op = 1)))
+                      = (markAfterEncode s2 (decide (io.availIn = 0 ∧ op = 2)) (decide (io.availIn = 0 ∧ op = 1))).blockSize :=
+                    rbs_full (by rw [k6, k2, hlp, f.2.1]) (by rw [k2, f.2.1]; exact hI2.ip_lt)
+                  rw [hfull] at hr
+                  have := blockSize_pos (markAfterEncode s2 (decide (io.availIn = 0 ∧ op = 2)) (decide (io.availIn = 0 ∧ op = 1)))
+                  omega
+                · simp only at hr2
+                  have : op = 1 ∨ op = 2 := by omega
+                  rcases this with h | h
+                  · exact h1 ⟨hr2, h⟩
+                  · exact h2 ⟨hr2, h⟩
+          unfold slowPot
+          rw [if_pos hbefore, if_neg hafter, k8]
+          have hpad : padB (markAfterEncode s2 (decide (io.availIn = 0 ∧ op = 2)) (decide (io.availIn = 0 ∧ op = 1))) ≤ 4 := by
+            unfold padB; split <;> omega
+          have hp0 : s.pending.length = 0 := hcond.1
+          have hplM : s2.pending.length ≤ M := by
+            refine Nat.le_trans hpl (Nat.le_trans (Nat.div_le_div_right ?_) hM)
+            omega
+          have e2 : (2 * io.availIn + 1) * (M + 8) = 2 * io.availIn * (M + 8) + (M + 8) := by
+            rw [Nat.add_mul, Nat.one_mul]
+          simp only [Nat.add_zero]
+          rw [e2]
+          generalize 2 * io.availIn * (M + 8) = T
+          omega
+      · simp at h
+
 end BV.Stream
